@@ -39,6 +39,11 @@ class ProtoWorld:
         return ok(UNIT)
 
     def try_send(self, I, chan, msg, node):
+        if chan == 'OUT':
+            # the channel to the engine: in SYS/LOCAL it is never full (capacity blocking is SYSQ's subject); the effect is marked so that
+            # SYSQ can drop the message when its explicit output queue has no room
+            I.effect('send', chan=chan, msg=msg, line=node['line'], try_=True)
+            return ok(UNIT)
         full = self.full.get(chan)
         if full is None:
             full = I.fresh('full:' + chan)
